@@ -237,8 +237,121 @@ theorem exchange_ok {α : Type} (inSz cnt : Nat) (fulls : List Bool) (pre : List
   rw [bind_ok h]
   have hr : recvCoe ⟨cnt % mbxMod + 1, fulls.tail, pre'.map (toMail inSz 0) ++ toMail inSz d resp :: rest, tr1⟩ =
       (⟨cnt % mbxMod + 1, fulls.tail, rest, tr1 ++ (skipEvs pre'.length ++ polls d)⟩, .ok data) := by
-    have := recvCoeL_skip inSz pre' (toMail inSz d resp :: rest) hpre'
-    simp [recvCoe, this, recvCoeL, toMail, hresp]
+    have h1 := recvCoeL_skip inSz pre' (toMail inSz d resp :: rest) hpre'
+    have h2 : recvCoeL (toMail inSz d resp :: rest) = (polls d, rest, .ok data) := by
+      simp [recvCoeL, toMail, hresp]
+    rw [h2] at h1
+    simp only [recvCoe, h1]
   exact ⟨_, by simp [hs], bind_ok hr⟩
+
+/-! ### the composed system when one exchange settles the call -/
+
+theorem iter_fix {α : Type} (f : α → α) (x : α) (h : f x = x) (n : Nat) : iter f n x = x := by
+  induction n with
+  | zero => rfl
+  | succ n ih => simp [iter, h, ih]
+
+theorem serveAll_one (s s1 : Srv) (req : List UInt8) (rs : List (List UInt8)) (h : step s req = (s1, rs)) :
+    serveAll s [req] = (s1, [rs]) := by
+  simp [serveAll, h]
+
+/-- if the call sends `req` whatever it waits for, the server answers `resp`, and with `resp` in the mailbox the
+call sends nothing more, then that is the run of the composed system -/
+theorem single_exchange (c : Setup) (req resp : List UInt8) (srv1 : Srv) (o : R (List UInt8))
+    (hreq : req.length ≤ c.p.outSz)
+    (h0 : sent (run c.p c.kind c.cnt c.fulls (mkMails c.p.inSz c.sched [])).1 = [req])
+    (hsrv : step c.srv req = (srv1, [resp]))
+    (h1 : sent (run c.p c.kind c.cnt c.fulls (mkMails c.p.inSz c.sched [[resp]])).1 = [req])
+    (ho : (run c.p c.kind c.cnt c.fulls (mkMails c.p.inSz c.sched [[resp]])).2 = o) :
+    ∀ n, 1 ≤ n → (system c n).outcome = o ∧ (system c n).objs = srv1.objs ∧ (system c n).responses = [[resp]] ∧
+      sent (system c n).trace = [req] := by
+  have ht : req.take c.p.outSz = req := List.take_of_length_le hreq
+  have r0 : requests c (mkMails c.p.inSz c.sched []) = [req] := by simp [requests, h0, ht]
+  have r1 : requests c (mkMails c.p.inSz c.sched [[resp]]) = [req] := by simp [requests, h1, ht]
+  have hs := serveAll_one _ _ _ _ hsrv
+  have f0 : round c (mkMails c.p.inSz c.sched []) = mkMails c.p.inSz c.sched [[resp]] := by simp [round, r0, hs]
+  have f1 : round c (mkMails c.p.inSz c.sched [[resp]]) = mkMails c.p.inSz c.sched [[resp]] := by simp [round, r1, hs]
+  intro n hn
+  obtain ⟨m, rfl⟩ : ∃ m, n = m + 1 := ⟨n - 1, by omega⟩
+  have hm : mailsAfter c (m + 1) = mkMails c.p.inSz c.sched [[resp]] := by
+    simp [mailsAfter, iter, f0, iter_fix _ _ f1]
+  simp only [system, hm, r1, hs]
+  exact ⟨ho, trivial, trivial, h1⟩
+
+/-! ### the server on the master's messages -/
+
+theorem msgOf_parts (cnt : Nat) (body : List UInt8) (hb : body.length < 65536) :
+    rd16 (msgOf cnt body) 0 = body.length ∧ rd8 (msgOf cnt body) 5 &&& 0xf = mbx_COE ∧
+      ((msgOf cnt body).drop 6).take body.length = body := by
+  refine ⟨?_, ?_, ?_⟩
+  · simp [rd16, msgOf, mbxHeader, encLE, decLE]; omega
+  · have : rd8 (msgOf cnt body) 5 = (mbx_COE ||| cnt <<< 4) % 256 := by
+      simp only [msgOf, mbxHeader, encLE, List.cons_append, List.nil_append]
+      exact UInt8.toNat_ofNat'
+    rw [this]; exact typ_nibble mbx_COE cnt (by decide)
+  · simp [msgOf, mbxHeader, encLE]
+
+/-- a CoE SDO request of the master that fits the receive mailbox reaches the SDO service it names -/
+theorem step_sdo (s : Srv) (cnt : Nat) (body : List UInt8) (h10 : 10 ≤ body.length) (hfit : 6 + body.length ≤ s.outSz)
+    (hb : body.length < 65536) (hsvc : u16 body 0 >>> 12 = 2) :
+    step s (msgOf cnt body) =
+      match byte body 2 >>> 5 with
+      | 1 => initDownload s (byte body 2) body
+      | 0 => downloadSegment s (byte body 2) body.length body
+      | 2 => initUpload s (byte body 2) body
+      | 3 => uploadSegment s (byte body 2)
+      | 4 => ({ s with xfer := .idle }, [])
+      | _ => abort s 0 0 abCmd := by
+  obtain ⟨h1, h2, h3⟩ := msgOf_parts cnt body hb
+  have hl : ¬ (msgOf cnt body).length < 6 := by simp
+  have hf : ¬ 6 + body.length > s.outSz := by omega
+  have ht : ¬ mbx_COE ≠ mbxCoE := by decide
+  have h2' : ¬ body.length < 2 := by omega
+  have h10' : ¬ body.length < 10 := by omega
+  have hs : ¬ rd16 body 0 >>> 12 ≠ svcSdoReq := by rw [rd16_eq_u16, hsvc]; decide
+  unfold step
+  have ht' : ¬ byte (msgOf cnt body) 5 &&& 15 ≠ mbxCoE := by rw [← rd8_eq_byte, h2]; exact ht
+  simp only [hl, if_false, h1, h3, hf, h2', h10', Nat.sub_self, zeros, List.replicate_zero, List.append_nil, hs,
+    rd8_eq_byte, ht']
+  rfl
+
+/-! ### upload: the request, the server's answer, what the master makes of it -/
+
+/-- the command byte of the upload request -/
+def upCmd (p : Params) : Nat := if p.sub.isNone then od_UP_REQ_CA else od_UP_REQ
+
+theorem upReq_eq (p : Params) : upReq p = sdoHdr (coe_SDOREQ <<< 12) (upCmd p) p.index (subOr1 p) ++ zeros 4 := rfl
+
+@[simp] theorem upReq_length (p : Params) : (upReq p).length = 10 := by simp [upReq, sdoHdr_length]
+
+theorem upCmd_facts (p : Params) : upCmd p < 256 ∧ upCmd p >>> 5 = 2 ∧ (upCmd p &&& 0x10 != 0) = p.sub.isNone := by
+  unfold upCmd
+  cases p.sub <;> simp <;> decide
+
+/-- what a conformant server answers to an initiate-upload request for an object it has -/
+def uploadAnswer (s : Srv) (p : Params) (o : Obj) : Srv × List (List UInt8) :=
+  if 1 ≤ o.val.length ∧ o.val.length ≤ 4 then
+    respond { s with xfer := .idle } (0x43 ||| ((4 - o.val.length) <<< 2) ||| caBit p.sub.isNone) p.index (subOr1 p)
+      (o.val ++ zeros (4 - o.val.length))
+  else
+    respond (if o.val.length > s.inSz - 16
+        then { s with xfer := .up p.index (subOr1 p) p.sub.isNone (o.val.drop (s.inSz - 16)) 0 }
+        else { s with xfer := .idle })
+      (0x41 ||| caBit p.sub.isNone) p.index (subOr1 p) (encLE 4 o.val.length ++ o.val.take (s.inSz - 16))
+
+theorem step_upload (s : Srv) (p : Params) (hwf : Wf p) (cnt : Nat) (o : Obj) (hsz : s.outSz = p.outSz)
+    (hfind : find s.objs p.index (subOr1 p) p.sub.isNone = some o) :
+    step s (msgOf cnt (upReq p)) = uploadAnswer s p o := by
+  obtain ⟨ho, hi, hi2, hidx, hsub⟩ := hwf
+  obtain ⟨c1, c2, c3⟩ := upCmd_facts p
+  have hsvc : u16 (upReq p) 0 >>> 12 = 2 := by
+    rw [upReq_eq, u16_sdoHdr0 _ _ _ _ _ (by decide)]; decide
+  rw [step_sdo s cnt (upReq p) (by simp) (by simp; omega) (by simp) hsvc]
+  have hcmd : byte (upReq p) 2 = upCmd p := by rw [upReq_eq, byte_sdoHdr2 _ _ _ _ _ c1]
+  rw [hcmd, c2]
+  simp only [initUpload, rd16_eq_u16, rd8_eq_byte, c3]
+  rw [upReq_eq, u16_sdoHdr3 _ _ _ _ _ hidx, byte_sdoHdr5 _ _ _ _ _ hsub]
+  simp only [hfind, uploadAnswer]
+  split <;> rfl
 
 end Ebv.C16
